@@ -50,8 +50,8 @@ claim("C09", _ACC,
 claim("C10", _ACC,
       "Theorems: CoseKey / CoseKeySet decoders return Ok exactly when key_spec / keyset_spec accept with the same value (kty mandatory, registered and not Reserved or text; key_ops non-empty, distinct, collected as the sorted set; extras in wire order). Implementation vs model on generated key maps (kty anywhere / absent / reserved / unregistered; repeated integer and text operations) in two encodings.",
       COMMON_NOTE, "DESIGN.md 7 (C10)")
-claim("C18", _ACC + "; round trip proved for claims sets; KDF contexts observed through to_vec (private fields)",
-      "Theorems: ClaimsSet, PartyInfo, SuppPubInfo and CoseKdfContext decoders accept exactly what their declarative specs accept, with the same field values; a well-formed claims set encodes to a map that decodes back to it. Encoding of well-formed values of the four types is compared with an independent Python encoder and decoded back on the implementation.",
+claim("C18", _ACC + "; encode/decode round trip proved for claims sets, PartyInfo, SuppPubInfo and CoseKdfContext; byte-level decode/encode/decode fixed point for the four types; KDF contexts observed through to_vec on the implementation (private fields)",
+      "Theorems: ClaimsSet, PartyInfo, SuppPubInfo and CoseKdfContext decoders accept exactly what their declarative specs accept, with the same field values; well-formed values of all four types encode to a value that decodes back to them (SuppPubInfo's `other` emitted exactly when present, even when empty), every decoded value is well-formed, and decode/encode/decode is a fixed point at byte level. Encoding of well-formed values of the four types is compared with an independent Python encoder and decoded back on the implementation.",
       COMMON_NOTE, "DESIGN.md 7 (C18)")
 
 
